@@ -278,7 +278,16 @@ func (p *Parser) StmtsSeq(r io.Reader) iter.Seq2[*Stmt, error] {
 	return func(yield func(*Stmt, error) bool) {
 		p.rune()
 		p.next()
-		p.stmts(yield)
+		stopped := false
+		p.stmts(func(s *Stmt, err error) bool {
+			stopped = !yield(s, err)
+			return !stopped
+		})
+		if stopped {
+			// The caller broke out of the loop; we must not yield again,
+			// not even an error from a pending here-document.
+			return
+		}
 		if p.err == nil {
 			// EOF immediately after heredoc word so no newline to
 			// trigger the parsing error.
